@@ -265,3 +265,18 @@ Definition goweb (data rest : list N) (e : ending) (d : dialres) (t : tscript) :
     let closed := match e with EOF => true | Stall => replied && t_close t end in
     mkW sent (if replied then t_reply t else []) closed closed
   end.
+
+(* ------------------------------------------------------------------------------ finishHandshake, direct transport *)
+(* TLS.makeResponder: the composed reply is ONE Write on the peer connection.  When that Write fails the responder
+   closes the connection and returns the error; dispatchConnection logs it and returns (admin and proxy branch alike):
+   the connection is not added to the session, nothing has reached the peer, nothing is relayed. *)
+Record fin_obs := mkFO {
+  fo_replied : bool;        (* the server's reply reached the peer *)
+  fo_peer_closed : bool;    (* the server closed the peer connection *)
+  fo_returned : bool }.     (* dispatchConnection returned at once *)
+Definition finish_tls (write_ok : bool) : fin_obs :=
+  if write_ok then mkFO true false false else mkFO false true true.
+
+(* is the connection handed to the redirect target? *)
+Definition relays (o : conn_outcome) : bool := match o with OWeb _ _ => true | _ => false end.
+
